@@ -32,13 +32,13 @@ def invalid_normals_never_yield_faces(run, funcs):
 def check(run):
     funcs, info = engine.load_mir('ibig')
     run.mir_info.append(info)
-    BR.check_normalisation(run, funcs, 'C08')
-    GR.from_dual(run, funcs, 'C08')
-    nnrules.image_set(run, funcs, 'C08')
-    GR.cuboid(run, funcs, 'C08')
-    invalid_normals_never_yield_faces(run, funcs)
-    BR.check_face_loops(run, funcs, 'C08')
-    GR.build_loop_multi(run, funcs, 'C08')      # the builder treats candidates alike in 1D / 2D / 3D
+    run.guard(BR.check_normalisation, funcs, 'C08')
+    run.guard(GR.from_dual, funcs, 'C08')
+    run.guard(nnrules.image_set, funcs, 'C08')
+    run.guard(GR.cuboid, funcs, 'C08')
+    run.guard(invalid_normals_never_yield_faces, funcs)
+    run.guard(BR.check_face_loops, funcs, 'C08')
+    run.guard(GR.build_loop_multi, funcs, 'C08')      # the builder treats candidates alike in 1D / 2D / 3D
     kanirun.run(run, 'C08', KANI, jobs=2)
     run.assume('the 1D closed form and the 2D = 3D slab equality are properties of the whole float pipeline: outside')
     return run.finish(LEVEL, EXPLANATION, trusted=['rustc -Zunpretty=mir', 'z3 5.1.0 / 4.8.12, cvc5 1.0.3', 'Kani 0.68 / CBMC 6.11', 'glam / std models of mirsym'])
